@@ -246,6 +246,31 @@ Proof.
 Qed.
 End OfFs.
 
+(** ** The listing of a walk.  In the model a walk of the scan directories lists the paths of the
+    file system that lie under one of them (the validator computes exactly this list, with the
+    extracted [under_of], and compares the resulting index with the implementation's).  For that
+    listing the completeness hypothesis of [built_index_is_ix_of_fs] is a theorem: the index of a
+    run is the registered set, with no hypothesis left. *)
+Definition walk_listing (f : fs) (under : path -> bool) : list path :=
+  filter under (map fst (fs_nodes f)).
+
+Lemma assoc_path_in {A} (l : list (path * A)) p a : assoc_path l p = Some a -> In p (map fst l).
+Proof.
+  induction l as [|[q b] r IH]; cbn [assoc_path map fst In]; [discriminate|].
+  destruct (path_eqb p q) eqn:Eq; [apply path_eqb_eq in Eq; now left|]. intros H. right. exact (IH H).
+Qed.
+
+Lemma walk_listing_complete f under p i :
+  fs_lookup f p = Some (NFile i) -> under p = true -> In p (walk_listing f under).
+Proof.
+  intros Hl Hu. unfold walk_listing. apply filter_In. split; [|exact Hu].
+  unfold fs_lookup in Hl. destruct p as [|c p]; [discriminate|]. exact (assoc_path_in _ _ _ Hl).
+Qed.
+
+Theorem walked_index_is_ix_of_fs f dev under es0 :
+  ix_of_fs f dev under es0 (build_index (scan_regs f dev under es0 (walk_listing f under) ++ export_regs f dev es0)).
+Proof. apply built_index_is_ix_of_fs. intros p i. apply walk_listing_complete. Qed.
+
 (** ** Non-vacuity: the example world of RunExample.v.  The walk lists the candidate twice (a scan
     directory given twice); the built index is the example's index, whichever way round. *)
 From TB Require Import RunExample.
